@@ -49,6 +49,14 @@ func (c *stepCtx) stepReject(st map[string]interface{}) []string {
 		arg = pp.Interface()
 	case "nilptr":
 		arg = reflect.Zero(holder.Type()).Interface()
+	case "nilintptr":
+		arg = (*int)(nil)
+	case "nilsliceptr":
+		arg = (*[]int32)(nil)
+	case "nilptrptr":
+		arg = reflect.Zero(reflect.PtrTo(holder.Type())).Interface()
+	case "nilmapptr":
+		arg = (*map[string]int32)(nil)
 	case "str":
 		arg = "struct"
 	case "slice":
